@@ -157,7 +157,7 @@ def laplacian_triangles(
     n = len(mesh.faces)
     m = len(mesh.edges)
 
-    Nabla = sp.lil_matrix((m,n), dtype=complex if connection else np.float32) # gradient matrix
+    Nabla = sp.lil_matrix((m,n), dtype=complex if connection else np.float64) # gradient matrix
     if connection is not None:
         for ie,(ei,ej) in enumerate(mesh.edges):
             T1,T2 = mesh.connectivity.edge_to_faces(ei,ej)
